@@ -398,6 +398,74 @@ theorem run_reasmE {σ ρ} (pay : Pay σ) (dep : Depack ρ) (Inv : σ → Bytes 
         Bool.true_and]
       exact i2
 
+/-- `P frame observation` holds of every frame of a history and its observation -/
+def EachFrame (P : Bytes → FrameObs → Prop) : List FrameIn → List FrameObs → Prop
+  | [], [] => True
+  | f :: fs, o :: os => P f.frame o ∧ EachFrame P fs os
+  | _, _ => False
+
+/-- **a per-frame statement along a history**: whatever holds of the ideal trip of every frame in
+    the payloader's domain, from every payloader and depacketizer state, holds of every frame of a
+    history -/
+theorem run_each {σ ρ} (pay : Pay σ) (dep : Depack ρ) (Inv : σ → Bytes → Prop) (P : Bytes → FrameObs → Prop) :
+    ∀ (fs : List FrameIn) (s : Sender σ) (r : ρ), AbsValid s.pk → s.pk.pt < 128 →
+      (∀ st frame, Inv st frame → frame.isEmpty = false) →
+      (∀ st (r : ρ) frame pkts, Inv st frame → P frame (idealObs dep r pkts (pay st s.pk.budget frame).1)) →
+      PayOk pay s.pk.budget Inv s.st fs →
+      EachFrame P fs (run pay dep s r fs) := by
+  intro fs
+  induction fs with
+  | nil => intro s r _ _ _ _ _; exact trivial
+  | cons f fs ih =>
+    intro s r hv hpt hne hP hp
+    obtain ⟨hi, hp'⟩ := hp
+    have he := hne _ _ hi
+    have hc := senderAfter_cfg pay s f
+    have hab : AbsValid (senderAfter pay s f).pk := by simpa [AbsValid, hc.2.2.2.1] using hv
+    simp only [Pipeline.run, round_eq pay dep s r f hv hpt he]
+    refine ⟨hP _ r _ _ hi, ?_⟩
+    exact ih (senderAfter pay s f) _ hab (by rw [hc.2.1]; exact hpt) hne
+      (by rw [hc.2.2.2.2.1]; exact hP) (by rw [hc.2.2.2.2.1, hc.2.2.2.2.2.2.2]; exact hp')
+
+theorem eachFrame_mem (P : Bytes → FrameObs → Prop) : ∀ (fs : List FrameIn) (obs : List FrameObs),
+    EachFrame P fs obs → ∀ o ∈ obs, ∃ f ∈ fs, P f.frame o := by
+  intro fs
+  induction fs with
+  | nil => intro obs h o ho; cases obs with
+    | nil => cases ho
+    | cons _ _ => exact absurd h (by simp [EachFrame])
+  | cons f fs ih =>
+    intro obs h o ho
+    cases obs with
+    | nil => cases ho
+    | cons o' os' =>
+      simp only [EachFrame] at h
+      simp only [List.mem_cons] at ho
+      rcases ho with rfl | ho
+      · exact ⟨f, by simp, h.1⟩
+      · obtain ⟨g, hg, hp⟩ := ih os' h.2 o ho
+        exact ⟨g, by simp [hg], hp⟩
+
+/-- from the propositional per-frame statement to the executable per-frame check over frame
+    descriptions `α` -/
+theorem histEach_of_eachFrame {α} (inp : α → FrameIn) (Q : α → FrameObs → Bool) (P : Bytes → FrameObs → Prop)
+    (D : α → Prop) (hPQ : ∀ a o, D a → P (inp a).frame o → Q a o = true) :
+    ∀ (as : List α) (obs : List FrameObs), (∀ a ∈ as, D a) → EachFrame P (as.map inp) obs →
+      histEach Q as obs = true := by
+  intro as
+  induction as with
+  | nil => intro obs _ h; cases obs with
+    | nil => rfl
+    | cons _ _ => exact absurd h (by simp [EachFrame])
+  | cons a as ih =>
+    intro obs hd h
+    cases obs with
+    | nil => exact absurd h (by simp [EachFrame])
+    | cons o os =>
+      simp only [List.map_cons, EachFrame] at h
+      simp only [histEach, Bool.and_eq_true]
+      exact ⟨hPQ a o (hd a (by simp)) h.1, ih os (fun b hb => hd b (by simp [hb])) h.2⟩
+
 /-! ### the two halves together -/
 
 /-- **one frame, end to end**, for a codec with per-frame reassembly -/
